@@ -28,6 +28,7 @@ type RefState struct {
 	// per execution
 	retryFailed    map[int]int
 	retryExhausted map[int]bool
+	retryAmbiguous map[int]bool // an application was cancelled around a failure: whether the policy counted it is not observable
 }
 
 func NewRefState(stack []Spec) *RefState {
@@ -67,7 +68,7 @@ func NewRefState(stack []Spec) *RefState {
 }
 
 func (rs *RefState) beginExecution() {
-	rs.retryFailed, rs.retryExhausted = map[int]int{}, map[int]bool{}
+	rs.retryFailed, rs.retryExhausted, rs.retryAmbiguous = map[int]int{}, map[int]bool{}, map[int]bool{}
 	for _, m := range rs.Breakers {
 		m.events = nil
 	}
@@ -99,6 +100,9 @@ func (env *Env) checkRetryLayer(layer int, apps []*App, rs *RefState, t0 int64) 
 		}
 		out := a.Out.Res
 		canceled := a.In.Exec.IsCanceled()
+		if rs.retryAmbiguous[layer] {
+			continue
+		}
 		if rs.retryExhausted[layer] {
 			// once its budget is exhausted the policy is skipped for the rest of the execution
 			if len(a.Children) != 1 {
@@ -138,7 +142,12 @@ func (env *Env) checkRetryLayer(layer int, apps []*App, rs *RefState, t0 int64) 
 				break
 			}
 			if canceled && last {
-				break // the cancelled application returned the cancellation result without handling this outcome
+				// the cancelled application returned the cancellation result; whether it had already counted
+				// this failure depends on which came first, and both orders are legitimate (the cancellation
+				// and the failure may stem from two timers of the same instant): a later application of this
+				// layer in the same execution starts from a budget the log does not determine
+				rs.retryAmbiguous[layer] = true
+				break
 			}
 			rs.retryFailed[layer]++
 			elapsed := c.Out.T - t0
@@ -443,13 +452,30 @@ func (env *Env) checkLimiterLayer(layer int, apps []*App, rs *RefState, created 
 	m := rs.Limiters[layer]
 	for _, a := range apps {
 		wait, commit := m.request(a.In.T-created, 1)
-		if a.Out == nil || a.In.Exec.IsCanceled() {
+		// (an attempt inside a cancelled hedge attempt: its own execution copy is not marked cancelled, its context is done)
+		if a.Out == nil || a.In.Exec.IsCanceled() || (a.Out.CtxDone && len(a.Children) == 0) {
 			if wait <= int64(s.LWait) {
 				commit() // the permit was reserved before the cancellation was noticed
 			}
 			continue
 		}
 		out := a.Out.Res
+		// attempts of a hedge that reach the limiter at the same instant are served in an order the log
+		// does not show (probe entry and permit request are separate steps): the reference takes them in
+		// log order, so with such a tie the refusal may have gone to the other attempt
+		tie := false
+		if env.hedgeAbove(layer) {
+			for _, b := range apps {
+				tie = tie || (b != a && b.In.T == a.In.T)
+			}
+		}
+		refusedReal := len(a.Children) == 0 && errors.Is(out.Error, ratelimiter.ErrExceeded)
+		if tie && refusedReal != (wait > int64(s.LWait)) {
+			if !refusedReal {
+				commit()
+			}
+			continue
+		}
 		if wait > int64(s.LWait) {
 			if len(a.Children) != 0 || !errors.Is(out.Error, ratelimiter.ErrExceeded) || out.Success {
 				return fmt.Sprintf("rate limiter should refuse (wait %d > max wait %d) but %d inner invocations, result %s", wait, int64(s.LWait), len(a.Children), resStr(out))
